@@ -8,10 +8,12 @@ CONSTANTS
   MaxBatch = 0
   MaxCancel = 0
   MaxDue = 0
+  MaxSlow = 0
   MaxSendFail = 0
   SendHops = 4
   SkipDoneFutures = TRUE
   GuardSetException = TRUE
   AllFieldMatchers = TRUE
   TicketBeforeRegister = TRUE
+  LiveListAtCompletion = TRUE
 CHECK_DEADLOCK FALSE
